@@ -294,7 +294,7 @@ theorem inv_work_urh (c : Cfg) (ar aq : Nat) (s : S) (h : Inv c ar aq s) (hrun :
       · exact how
     by_cases hchk : (chk == ShouldRetry) = true
     · simp only [hchk, if_true]
-      unfold setupRetry
+      rw [setupRetry_eq]
       by_cases hexp : (setupRetryChecksExpiry && s1.globalExpired) = true
       · -- the global timeout has expired: no retry, the response goes to the client
         simp only [hexp, if_true, Bool.false_eq_true, if_false]
